@@ -146,6 +146,8 @@ PROBES = {
     "dropna_quoted": lambda f: frame_view(f.dropna(subset="n.`b c`")),
     "ok_isna": lambda f: [bool(v) for v in f["ok"].isna()] + [bool(v) for v in f["okobj"].isna()],
     "nest_series_index": lambda f: [export.labels(f["n"].index), export.labels(f["my nest"].index)],
+    # the NAMES of the index, as the frame, a nested column and a flat view carry them
+    "index_names": lambda f: [repr(f.index.name), repr(f["n"].index.name), repr(f["n.a"].index.name), repr(f.columns.name)],
     "flat_index": lambda f: export.labels(f["n.a"].index),
     "list_lengths": lambda f: [int(v) for v in f["n"].array.list_lengths],
     "count_nested": lambda f: frame_view(__import__("nested_pandas").utils.count_nested(f, "n")),
@@ -189,7 +191,7 @@ def run_history(ctx, names):
         obj, ref = (nf, fresh) if who == "same" else (nf.copy(), fresh.copy())
         # probes that only LOOK at the object come first (some later probes copy the frame internally, and pandas'
         # copy() clears the item cache of its source — which would repair state left there before it is looked at)
-        first = ["isna", "nest_series_index", "flat_index", "column_labels", "fields", "aliases_attr", "ok_isna", "list_lengths", "nested_columns", "data", "all_columns"]
+        first = ["isna", "nest_series_index", "index_names", "flat_index", "column_labels", "fields", "aliases_attr", "ok_isna", "list_lengths", "nested_columns", "data", "all_columns"]
         order = first + [k for k in PROBES if k not in first]
         for pn in order:
             pf = PROBES[pn]
